@@ -40,6 +40,13 @@ FLAG_NAMES = ["FITERRSMALL", "FITERR", "FIXED2PSF", "FIXEDCIRCULAR",
 
 
 MUTANTS = [
+    ("island row negative as soon as one pixel is negative",
+     "AegeanTools/source_finder.py",
+     "                if source.peak_flux < 0:\n"
+     "                    source.peak_flux = np.nanmin(kappa_sigma)",
+     "                if np.nanmin(kappa_sigma) < 0:\n"
+     "                    source.peak_flux = np.nanmin(kappa_sigma)",
+     "C03-R18"),
     ("row bound of the refit box clamped with the column count",
      "AegeanTools/source_finder.py",
      "                xmax = max(xmax, min(shape[0], x + xwidth // 2 + 1))",
@@ -149,6 +156,8 @@ def run(ctx):
     r7(ctx, prog)
     r8(ctx, prog)
     r9(ctx, prog)
+    from .c13 import r8_island_peak
+    r8_island_peak(ctx, prog, rule="C03-R18", polarity=True)
     ctx.rule("C03-R17", "the fitting box of a priorized island is cut with "
              "row bounds made of row quantities and column bounds made of "
              "column quantities (a row bound clamped with the number of "
